@@ -592,6 +592,29 @@ func (l *Log) assignStatusVars(r *rand.Rand) {
 	}
 }
 
+// mysql8Tail is the optional metadata a MySQL 8.0 master appends to a table map under binlog_row_metadata=MINIMAL: the
+// SIGNEDNESS field (type 1), one bit per NUMERIC column - the integer types, FLOAT, DOUBLE and DECIMAL - in column order,
+// most significant bit first, set for unsigned columns; it agrees with what the table mapper says.
+func mysql8Tail(t *Table) []byte {
+	var bits []bool
+	for _, c := range t.Cols {
+		switch c.Typ {
+		case 1, 2, 3, 8, 9, 4, 5, 246:
+			bits = append(bits, c.Uns)
+		}
+	}
+	if len(bits) == 0 {
+		return nil
+	}
+	val := make([]byte, (len(bits)+7)/8)
+	for i, b := range bits {
+		if b {
+			val[i/8] |= 0x80 >> uint(i%8)
+		}
+	}
+	return append([]byte{1, byte(len(val))}, val...)
+}
+
 func optTail(r *rand.Rand) []byte {
 	if r.Intn(3) != 0 {
 		return nil
